@@ -54,7 +54,7 @@ pub fn check(c: &TCase) -> V {
 pub fn run(r: &mut Run) {
     crate::props::pinned::run(r, pinned_cases());
     let base = progdiff::base_preset(r);
-    let p1 = Preset { returns: 1, aborts: 0, bang: false, coalesce: 4, infallible_assign: 3, closures: 3, ..base };
+    let p1 = Preset { returns: 1, aborts: 0, bang: false, coalesce: 4, infallible_assign: 3, closures: 3, shadowing: true, ..base };
     r.sub("programs_without_bang_and_abort", 200_000, 10_000_000, move || typesound::strategy(p1), check);
 }
 
